@@ -506,6 +506,51 @@ def c11Update (st : BkState) (pre post : Server) (ws : List String) (io : ImplOu
           s!"c{n} has {cur'.length} unacknowledged QoS>0 PUBLISH packets in transit (ids {cur'}), the client declared Receive Maximum {rm}"])
       else (st, vs)) (st, [])
 
+/-- C11 (inbound direction) on the real broker's streams: the broker may end a connection with 0x93 (Receive
+    Maximum exceeded) only when the client really has as many QoS>0 publishes open as the broker's Receive Maximum.
+    Open = QoS 2 publishes accepted with a PUBREC below 0x80 and not yet completed by PUBCOMP (a QoS 1 publish is
+    complete with its PUBACK, within the op). F11 (recorded): acknowledgements of the outbound direction move the
+    inbound quota — connections that took part in an outbound QoS 2 exchange carry that signature. -/
+def c11InUpdate (st : BkState) (pre : Server) (ws : List String) (io : ImplOut) (core : String := "") : BkState × List String :=
+  match ws with
+  | ["bk.dump"] =>
+    -- "without leaking quota": a connected client's receive quota is its maximum minus its open inbound exchanges
+    let vs := (core.splitOn " | ").flatMap fun part =>
+      let kv := part.splitOn " "
+      match kvGet kv "id", kvGet kv "rq", kvGet kv "closed" with
+      | some idh, some rq, some "0" =>
+        match parseHex idh, rq.splitOn "/" with
+        | some cid, [a, b] =>
+          match a.toNat?, b.toNat?, liveConnOf pre cid with
+          | some a, some b, some n =>
+            let opn := ((st.inOpen.find? (·.1 == n)).map (·.2) |>.getD []).length
+            if a + opn < b then
+              [fail "C11" (if st.sawQos2.contains n then "F11" else "-")
+                s!"client {idh} on c{n}: receive quota {a} of {b} with {opn} inbound exchange(s) open — {b - a - opn} unit(s) leaked"]
+            else []
+          | _, _, _ => []
+        | _, _ => []
+      | _, _, _ => []
+    (st, vs)
+  | "bk.send" :: n :: typ :: kv =>
+    match n.toNat? with
+    | none => (st, [])
+    | some n =>
+      let pks := (io.conns.find? (·.1 == n)).map (·.2) |>.getD []
+      let cur := (st.inOpen.find? (·.1 == n)).map (·.2) |>.getD []
+      let id := kvNatD kv "id" 1
+      let ok (pfx : String) := pks.any fun p => p.startsWith s!"{pfx}:id{id}:" && (match fieldOf p "rc" with | some rc => rc < "80" | none => true)
+      let cur' := if typ == "PUBLISH" && kvNatD kv "q" 0 == 2 && ok "PUBREC" && !cur.contains id then cur ++ [id]
+                  else if typ == "PUBREL" && pks.any (fun p => p.startsWith s!"PUBCOMP:id{id}:") then cur.filter (· != id)
+                  else cur
+      let st := { st with inOpen := (st.inOpen.filter (·.1 != n)) ++ [(n, cur')] }
+      let cut := pks.any fun p => p.startsWith "DISCONNECT:rc93"
+      if cut && typ == "PUBLISH" && cur.length < pre.caps.receiveMaximum then
+        (st, [fail "C11" (if st.sawQos2.contains n then "F11" else "-")
+          s!"c{n} was disconnected with 0x93 (Receive Maximum exceeded) while it had {cur.length} publish(es) open; the broker's Receive Maximum is {pre.caps.receiveMaximum}"])
+      else (st, [])
+  | _ => (st, [])
+
 /-- C09 (after PUBREC the broker resends PUBREL, not PUBLISH) on the real broker's streams -/
 def c09Update (st : BkState) (pre post : Server) (ws : List String) (io : ImplOut) : BkState × List String :=
   -- 1. the client's PUBREC / PUBCOMP of this op (also when the client vanished right after sending it)
@@ -661,7 +706,8 @@ def brokerOpV (st : BkState) (impl : String) (ws : List String) : Option (BkStat
     let (st2b, c09) := c09Update st'' st.srv st'.srv ws (parseImplOut core)
     let (st3, c11) := c11Update st2b st.srv st'.srv ws (parseImplOut core)
     let (st4, c25) := c25Update st3 st.srv st'.srv ws (parseImplOut core) flags
-    some (st4, m, renderVerdicts (brokerVerdicts st.srv ws core flags ++ c12 ++ c09 ++ c11 ++ c25), g)
+    let (st5, c11i) := c11InUpdate st4 st.srv ws (parseImplOut core) core
+    some (st5, m, renderVerdicts (brokerVerdicts st.srv ws core flags ++ c12 ++ c09 ++ c11 ++ c25 ++ c11i), g)
   | none => none
 
 end Mochi.Driver
